@@ -67,6 +67,10 @@ class Scn:
         everything whose call has returned must be delivered by it; calls still blocked are not demanded"""
         for t in self.threads:
             self.L.append(f"T {t} go")
+        # make sure something is still pending in the queues of some (not all) threads when the backend exits
+        for t in sorted(self.alive):
+            if self.rng.random() < 0.6 and self.loggers:
+                self.log(t, self.rng.choice(self.loggers), pad=self.rng.randint(0, 16))
         self.L.append("B exit")
         self.L.append("mark qf")
         if ctx:
